@@ -114,7 +114,10 @@ def strip_attrs(t):
 
 FAMILIES = {
     # family: struct prefix, helper-module prefix, trait whose impl holds the constructor, constructor fn, polled trait + fn
-    'join': dict(struct='Join', mod='join', ctor_trait='JoinTrait', ctor='join', trait='Future', poll='poll'),
+    'join': dict(struct='Join', mod='join', ctor_trait='JoinTrait', ctor='join', trait='Future', poll='poll',
+                 out=lambda F: [F, '::', 'Output'], elem='Fut::Output', output='[Fut::Output; N]', generics='Fut, const N: usize', gargs='Fut, N'),
+    'try_join': dict(struct='TryJoin', mod='try_join_', ctor_trait='TryJoinTrait', ctor='try_join', trait='Future', poll='poll',
+                     out=lambda F: ['Res' + F], elem='T', output='Result<[T; N], E>', generics='Fut, T, E, const N: usize', gargs='Fut, T, E, N'),
 }
 
 def names_of(t, i):
@@ -139,18 +142,22 @@ def fold_assert(t):
     # R2
     out, i = [], 0
     while i < len(t):
-        if t[i] == 'if' and t[i + 1] == '!' and t[i + 3] == '{' and t[i + 4] == '{' and t[i + 5:i + 11] == ['::', 'core', '::', 'panicking', '::', 'panic_fmt']:
-            c = t[i + 2]
-            e = close(t, i + 3)
-            inner = t[i + 4:e]
-            if not (inner[0] == '{' and close(inner, 0) == len(inner) - 1 and inner[-2] == ';'):
-                raise NormError("R2: unexpected shape of an expanded assert!")
-            out += ['assert', '!', '(', c, ')', ';']
-            i = e + 1
-            if i < len(t) and t[i] == ';':
-                i += 1
-        else:
-            out.append(t[i]); i += 1
+        if t[i] == 'if' and t[i + 1] == '!':
+            j = i + 2
+            while j < len(t) and t[j] not in ('{', ';'):
+                j += 1
+            if j < len(t) and t[j] == '{' and t[j + 1] == '{' and t[j + 2:j + 8] == ['::', 'core', '::', 'panicking', '::', 'panic_fmt']:
+                c = t[i + 2:j]
+                e = close(t, j)
+                inner = t[j + 1:e]
+                if not (close(inner, 0) == len(inner) - 1 and inner[-2] == ';' and inner[7] == '(' and close(inner, 7) == len(inner) - 3):
+                    raise NormError("R2: unexpected shape of an expanded assert!")
+                out += ['assert', '!', '('] + c + [')', ';']
+                i = e + 1
+                if i < len(t) and t[i] == ';':
+                    i += 1
+                continue
+        out.append(t[i]); i += 1
     return out
 
 def fold_dispatch(t, names, var='index'):
@@ -210,7 +217,7 @@ def fold_slots(t, names, head, subst):
     rep = ['for', 'i', 'in', '0', '..', 'N', '{'] + h + bodies[0] + ['}', '}']
     return t[:i] + rep + t[j:]
 
-def fold_take(t, names):
+def fold_take(t, names, fam):
     # R5
     i = find(t, ['{', 'let', 'mut', 'out', '=', '('])
     if i < 0:
@@ -218,7 +225,7 @@ def fold_take(t, names):
     e = close(t, i)
     exp = ['{', 'let', 'mut', 'out', '=', '(']
     for n_ in names:
-        exp += ['MaybeUninit', '::', '<', n_, '::', 'Output', '>', '::', 'uninit', '(', ')', ',']
+        exp += ['MaybeUninit', '::', '<'] + fam['out'](n_) + ['>', '::', 'uninit', '(', ')', ',']
     if len(names) > 1:
         exp.pop()
     exp += [')', ';', 'core', '::', 'mem', '::', 'swap', '(', '&', 'mut', 'out', ',', 'this', '.', 'outputs', ')', ';', 'let', '(']
@@ -236,8 +243,8 @@ def fold_take(t, names):
         raise NormError("R5: the block that moves the outputs out has an unexpected shape")
     return t[:i] + ['unsafe', '{', 'this', '.', 'outputs', '.', 'take', '(', ')', '}'] + t[e + 1:]
 
-def norm_join(t, k, repo):
-    fam = FAMILIES['join']
+def norm_family(family, t, k, repo):
+    fam = FAMILIES[family]
     S, M = fam['struct'] + str(k), fam['mod'] + str(k)
     # ---- helper module: children and LEN (R1)
     mi = find(t, ['mod', M, '{'])
@@ -270,7 +277,7 @@ def norm_join(t, k, repo):
     if si < 0:
         raise NormError(f"struct {S} not found")
     gn, ge = names_of(t, si + 2)
-    if gn != names:
+    if [x for x in gn if x in names] != names:
         raise NormError(f"struct {S}: unexpected generics")
     sb = t.index('{', ge)
     sbody = strip_attrs(t[sb + 1:close(t, sb)])
@@ -287,25 +294,28 @@ def norm_join(t, k, repo):
         ty = sbody[i + 2:j]
         outs = ['(']
         for n_ in names:
-            outs += ['MaybeUninit', '<', n_, '::', 'Output', '>', ',']
+            outs += ['MaybeUninit', '<'] + fam['out'](n_) + ['>', ',']
         if len(names) > 1:
             outs.pop()
         outs += [')']
         if ty == [M, '::', 'Futures', '<'] + sum(([n_, ','] for n_ in names), [])[:-1] + ['>']:
             ty2 = 'FutureArray<Fut, N>'
         elif ty == outs:
-            ty2 = 'OutputArray<Fut::Output, N>'
+            ty2 = 'OutputArray<%s, N>' % fam['elem']
         elif ty == ['PollArray', '<', '{', M, '::', 'LEN', '}', '>']:
             ty2 = 'PollArray<N>'
         elif ty == ['WakerArray', '<', '{', M, '::', 'LEN', '}', '>']:
             ty2 = 'WakerArray<N>'
         elif ty in (['usize'], ['bool']):
             ty2 = ty[0]
+        elif ty[:2] == ['PhantomData', '<']:
+            ty2 = None
         else:
             raise NormError(f"R6: struct {S}: field `{nm}` has a type the rule does not cover: {' '.join(ty)}")
-        fields.append((nm, ty2))
+        if ty2 is not None:
+            fields.append((nm, ty2))
         i = j + 1
-    struct_txt = "pub struct %s<Fut, const N: usize> {\n%s}\n" % (fam['struct'], ''.join(f"    {n_}: {ty},\n" for n_, ty in fields))
+    struct_txt = "pub struct %s<%s> {\n%s}\n" % (fam['struct'], fam['generics'], ''.join(f"    {n_}: {ty},\n" for n_, ty in fields))
     # ---- poll
     pi = find(t, [fam['trait'], 'for', S, '<'], si)
     if pi < 0:
@@ -321,7 +331,7 @@ def norm_join(t, k, repo):
     body = fold_assert(body)
     body = replace_all(body, ['let', 'mut', 'futures', '=', 'this', '.', 'futures', '.', 'project', '(', ')', ';'], [])
     body = fold_dispatch(body, names)
-    body = fold_take(body, names)
+    body = fold_take(body, names, fam)
     if 'futures' in [x for n_, x in enumerate(body) if body[n_ - 1] != '.'] or any(n_ in body for n_ in names if len(n_) == 1 and n_ != 'N'):
         raise NormError("poll mentions a child outside the index dispatch")
     # ---- destructor
@@ -373,7 +383,7 @@ def norm_join(t, k, repo):
             j += 1
         v = lit[i + 2:j]
         kids = [M, '::', 'Futures', '{'] + sum(([n_, ':', 'ManuallyDrop', '::', 'new', '(', n_, '.', 'into_future', '(', ')', ')', ','] for n_ in names), []) + ['}']
-        outs = ['('] + sum((['MaybeUninit', '::', '<', n_, '::', 'Output', '>', '::', 'uninit', '(', ')', ','] for n_ in names), [])
+        outs = ['('] + sum((['MaybeUninit', '::', '<'] + fam['out'](n_) + ['>', '::', 'uninit', '(', ')', ','] for n_ in names), [])
         if len(names) > 1:
             outs.pop()
         outs += [')']
@@ -385,15 +395,19 @@ def norm_join(t, k, repo):
             v2 = ''.join(v)
         elif len(v) == 1 and re.match(r'\d+$|true$|false$', v[0]):
             v2 = v[0]
+        elif v == ['PhantomData']:
+            v2 = None
         else:
             raise NormError(f"R6: constructor: field `{nm}` is initialised in a way the rule does not cover: {' '.join(v)}")
-        inits.append((nm, v2))
+        if v2 is not None:
+            inits.append((nm, v2))
         i = j + 1
-    ctor_txt = ("impl<Fut, const N: usize> %s<Fut, N> {\n    pub(crate) fn new(futures: [Fut; N]) -> Self {\n        %s {\n%s        }\n    }\n}\n"
-                % (fam['struct'], fam['struct'], ''.join(f"            {n_}: {v},\n" for n_, v in inits)))
-    poll_txt = ("impl<Fut, const N: usize> Future for %s<Fut, N> {\n    type Output = [Fut::Output; N];\n"
-                "    fn poll(self: Pin<&mut Self>, cx: &mut Context<'_>) -> Poll<Self::Output> {\n        %s\n    }\n}\n" % (fam['struct'], ' '.join(body)))
-    drop_txt = ("impl<Fut, const N: usize> PinnedDrop for %s<Fut, N> {\n    fn drop(self: Pin<&mut Self>) {\n        %s\n    }\n}\n" % (fam['struct'], ' '.join(dbody)))
+    G, GA = fam['generics'], fam['gargs']
+    ctor_txt = ("impl<%s> %s<%s> {\n    pub(crate) fn new(futures: [Fut; N]) -> Self {\n        %s {\n%s        }\n    }\n}\n"
+                % (G, fam['struct'], GA, fam['struct'], ''.join(f"            {n_}: {v},\n" for n_, v in inits)))
+    poll_txt = ("impl<%s> Future for %s<%s> {\n    type Output = %s;\n"
+                "    fn poll(self: Pin<&mut Self>, cx: &mut Context<'_>) -> Poll<Self::Output> {\n        %s\n    }\n}\n" % (G, fam['struct'], GA, fam['output'], ' '.join(body)))
+    drop_txt = ("impl<%s> PinnedDrop for %s<%s> {\n    fn drop(self: Pin<&mut Self>) {\n        %s\n    }\n}\n" % (G, fam['struct'], GA, ' '.join(dbody)))
     return struct_txt + "\n" + ctor_txt + "\n" + poll_txt + "\n" + drop_txt
 
 _CACHE = {}
@@ -406,7 +420,7 @@ def normalised(repo, family, features='std'):
     t = _CACHE[key]
     texts = {}
     for k in range(1, 13):
-        texts[k] = {'join': norm_join}[family](t, k, repo)
+        texts[k] = norm_family(family, t, k, repo)
     for k in range(2, 13):
         if texts[k] != texts[1]:
             a, b = texts[1].split(), texts[k].split()
@@ -417,7 +431,7 @@ def normalised(repo, family, features='std'):
     return hdr + texts[1]
 
 if __name__ == '__main__':
-    repo = '/repo'
+    repo = sys.argv[2] if len(sys.argv) > 2 else '/repo'
     fam = sys.argv[1] if len(sys.argv) > 1 else 'join'
     try:
         print(normalised(repo, fam))
